@@ -2214,4 +2214,7 @@ class Transaction(object):
         self.fee = fee
         for o in outputs_to_delete:
             self.outputs.remove(o)
+        # Renumber outputs, output_n must be the position of the output in the serialized transaction
+        for idx, o in enumerate(self.outputs):
+            o.output_n = idx
         self.sign_and_update()
